@@ -50,8 +50,9 @@
  *   G <c> <off> <len>                     ZSTD_generateSequences on the context (history item; the sequence array is freed right after)
  *   prefixa <c> <off> <len> <sa>          ZSTD_CCtx_refPrefix of a COPY placed at srcArena+sa (a following F with <sa>+<len> makes
  *                                         the prefix end exactly where the input starts)
+ *   loada <c> <off> <len> <sa>            ZSTD_CCtx_loadDictionary_advanced(byRef, auto) of a COPY placed at srcArena+sa (as prefixa)
  *   W <c> <off> <len> <span>              ZSTD_compress2 with the sticky parameters: once with a large capacity (size r0), then with
- *                                         every capacity r0 .. r0+span; prints "W off len r0 nerr ndiff firstcap firstsize nraw"
+ *                                         every capacity r0 .. r0+span; prints "W off len r0 nerr ndiff firstcap firstsize nraw headerSize strategy <one of E = R X per capacity>"
  *       udictc <level> <doff> <dlen>      (F api) ZSTD_compress_usingDict, the dictionary copied right in front of the input (<sa> >= <dlen>)
  *   P lines (trace on, streaming frames): after every input piece "P ctx piece consumedSrcSize inBuffPos inToCompress inBuffTarget streamStage"
  * Output: "F fid rc size hash rt nerr sc nblocks lastBlockEmpty [hex]"  (sc: 1 = e_end shortcut taken, -1 = buffered path, -2 = not a streaming frame)  (rc 0 ok, else "E <errorname>"), D / J lines, "E ..." for API errors.
@@ -241,6 +242,16 @@ static void dump(int ci, const char* why) {
 
 static int g_nerr;   /* API errors (set / load / reset ...) since the last F line */
 static void perr(const char* what, size_t r) { g_nerr++; printf("E %s %s\n", what, ZSTD_getErrorName(r)); }
+/* S line (trace on): one API call and the session-level state right after it, for the lock-step with Det/ApiState.v:
+ * "S ctx code a b accepted stage!=init localDict.dict localDict.cdict cctx->cdict prefixDict.dict collectSequences"
+ * codes = opcodes of Driver.d_api (0 = context created, 20 = a streaming / compress2 frame that failed) */
+static void sline(int c, int code, long long a, long long b, size_t rc) {
+    const ZSTD_CCtx* const x = C[c];
+    if (!g_trace || x == NULL) return;
+    printf("S %d %d %lld %lld %d %d %d %d %d %d %d\n", c, code, a, b, ZSTD_isError(rc) ? 0 : 1, x->streamStage != zcss_init,
+           x->localDict.dict != NULL, x->localDict.cdict != NULL, x->cdict != NULL, x->prefixDict.dict != NULL,
+           x->seqCollector.collectSequences);
+}
 
 /* ---------------- round trip through libzstd ---------------- */
 static int decode_ok(const BYTE* cs, size_t csize, const BYTE* src, size_t size) {
@@ -371,13 +382,14 @@ int main(void) {
             else { Cmem[c] = malloc(sz + 64); fill_garbage(Cmem[c], sz + 64); C[c] = ZSTD_initStaticCCtx((void*)(((size_t)Cmem[c] + 63) & ~(size_t)63), sz); }
             if (!C[c]) printf("E ctx create-failed\n");
             stickyKind[c] = 0; prefSet[c] = 0; refCD[c] = -1;
-            dump(c, "create");
+            dump(c, "create"); sline(c, 0, 0, 0, 0);
         } else if (!strcmp(cmd, "free")) {
             int c; if (fscanf(in, "%d", &c) != 1) return 2;
             if (C[c]) { if (!Cmem[c]) ZSTD_freeCCtx(C[c]); free(Cmem[c]); C[c] = NULL; Cmem[c] = NULL; }
         } else if (!strcmp(cmd, "set")) {
             int c, p, v; size_t r; if (fscanf(in, "%d %d %d", &c, &p, &v) != 3) return 2;
             r = ZSTD_CCtx_setParameter(C[c], (ZSTD_cParameter)p, v); if (ZSTD_isError(r)) perr("set", r);
+            sline(c, 1, ZSTD_isUpdateAuthorized((ZSTD_cParameter)p), 1, r);
         } else if (!strcmp(cmd, "setp")) {
             /* the same parameters through a ZSTD_CCtx_params object: ZSTD_CCtxParams_setParameter xN + ZSTD_CCtx_setParametersUsingCCtxParams */
             int c, n, k; size_t r; ZSTD_CCtx_params* pp;
@@ -388,23 +400,31 @@ int main(void) {
                 r = ZSTD_CCtxParams_setParameter(pp, (ZSTD_cParameter)p, v); if (ZSTD_isError(r)) perr("set", r);
             }
             r = ZSTD_CCtx_setParametersUsingCCtxParams(C[c], pp); if (ZSTD_isError(r)) perr("setp-apply", r);
+            sline(c, 2, 1, 0, r);
             ZSTD_freeCCtxParams(pp);
         } else if (!strcmp(cmd, "reset")) {
             int c, k; size_t r; if (fscanf(in, "%d %d", &c, &k) != 2) return 2;
             r = ZSTD_CCtx_reset(C[c], (ZSTD_ResetDirective)k); if (ZSTD_isError(r)) perr("reset", r);
             if (!ZSTD_isError(r)) { prefSet[c] = 0; if (k >= 2) { stickyKind[c] = 0; refCD[c] = -1; } }
+            if (k == 1) sline(c, 7, 0, 0, r);
+            else if (k == 2) sline(c, 8, 0, 0, r);
+            else { /* session_and_parameters = session_only, then parameters (which a frame in progress cannot refuse any more) */
+                printf("S %d 7 0 0 1 -1 -1 -1 -1 -1 -1\n", c); sline(c, 8, 0, 0, r); }
             dump(c, "reset");
         } else if (!strcmp(cmd, "pledge")) {
             int c; ull n; size_t r; if (fscanf(in, "%d %llu", &c, &n) != 2) return 2;
             r = ZSTD_CCtx_setPledgedSrcSize(C[c], n); if (ZSTD_isError(r)) perr("pledge", r);
+            sline(c, 6, 0, 0, r);
         } else if (!strcmp(cmd, "prefix")) {
             int c; size_t o, l, r; if (fscanf(in, "%d %zu %zu", &c, &o, &l) != 3) return 2;
             r = ZSTD_CCtx_refPrefix(C[c], blob + o, l); if (ZSTD_isError(r)) perr("prefix", r);
-            else { prefSet[c] = l > 0; prefOff[c] = o; prefLen[c] = l; }
+            else { prefSet[c] = l > 0; prefOff[c] = o; prefLen[c] = l; stickyKind[c] = 0; refCD[c] = -1; /* ZSTD_clearAllDicts */ }
+            sline(c, 5, l > 0, 0, r);
         } else if (!strcmp(cmd, "load")) {
             int c, byRef, type; size_t o, l, r; if (fscanf(in, "%d %zu %zu %d %d", &c, &o, &l, &byRef, &type) != 5) return 2;
             r = ZSTD_CCtx_loadDictionary_advanced(C[c], blob + o, l, byRef ? ZSTD_dlm_byRef : ZSTD_dlm_byCopy, (ZSTD_dictContentType_e)type);
-            if (ZSTD_isError(r)) perr("load", r); else { stickyKind[c] = l > 0; stickyOff[c] = o; stickyLen[c] = l; refCD[c] = -1; }
+            if (ZSTD_isError(r)) perr("load", r); else { stickyKind[c] = l > 0; stickyOff[c] = o; stickyLen[c] = l; refCD[c] = -1; prefSet[c] = 0; }
+            sline(c, 3, l > 0, 0, r);
         } else if (!strcmp(cmd, "cdict")) {
             int d, level, byRef, type; size_t o, l; if (fscanf(in, "%d %zu %zu %d %d %d", &d, &o, &l, &level, &byRef, &type) != 6) return 2;
             /* the previous CDict of this slot is not freed: a context may still reference it (ZSTD_CCtx_refCDict is sticky) and dump() reads it */
@@ -425,7 +445,8 @@ int main(void) {
         } else if (!strcmp(cmd, "refcdict")) {
             int c, d; size_t r; if (fscanf(in, "%d %d", &c, &d) != 2) return 2;
             r = ZSTD_CCtx_refCDict(C[c], d < 0 ? NULL : CD[d]); if (ZSTD_isError(r)) perr("refcdict", r);
-            else { refCD[c] = d; stickyKind[c] = 0; }
+            else { refCD[c] = d; stickyKind[c] = 0; prefSet[c] = 0; }
+            sline(c, 4, (d >= 0 && CD[d] != NULL) ? d + 1 : 0, 1, r);
         } else if (!strcmp(cmd, "A")) {
             int c, fl; size_t o, l, r; size_t psz[1]; int pdir[1]; size_t caps[1];
             if (fscanf(in, "%d %zu %zu %d", &c, &o, &l, &fl) != 4) return 2;
@@ -435,6 +456,7 @@ int main(void) {
             if (ZSTD_isError(r)) perr("A", r);
             prefSet[c] = 0;
             printf("A %d\n", c);
+            sline(c, ZSTD_isError(r) ? 20 : 9, 0, 0, 0);
             dump(c, "abandon");
         } else if (!strcmp(cmd, "G")) {
             int c; size_t o, l, r, cap2; ZSTD_Sequence* sq;
@@ -446,25 +468,34 @@ int main(void) {
             if (ZSTD_isError(r)) perr("G", r);
             prefSet[c] = 0;
             printf("G %d %zu\n", c, ZSTD_isError(r) ? (size_t)0 : r);
+            sline(c, ZSTD_isError(r) ? 20 : 13, 0, 0, 0);
             dump(c, "genseq");
         } else if (!strcmp(cmd, "prefixa")) {
             int c; size_t o, l, sa, r; if (fscanf(in, "%d %zu %zu %zu", &c, &o, &l, &sa) != 4) return 2;
             need_arena(sa + l); memcpy(srcArena + sa, blob + o, l);
             r = ZSTD_CCtx_refPrefix(C[c], srcArena + sa, l); if (ZSTD_isError(r)) perr("prefixa", r);
-            else { prefSet[c] = l > 0; prefOff[c] = o; prefLen[c] = l; }
+            else { prefSet[c] = l > 0; prefOff[c] = o; prefLen[c] = l; stickyKind[c] = 0; refCD[c] = -1; }
+            sline(c, 5, l > 0, 0, r);
+        } else if (!strcmp(cmd, "loada")) {
+            int c; size_t o, l, sa, r; if (fscanf(in, "%d %zu %zu %zu", &c, &o, &l, &sa) != 4) return 2;
+            need_arena(sa + l); memcpy(srcArena + sa, blob + o, l);
+            r = ZSTD_CCtx_loadDictionary_advanced(C[c], srcArena + sa, l, ZSTD_dlm_byRef, ZSTD_dct_auto);
+            if (ZSTD_isError(r)) perr("loada", r); else { stickyKind[c] = l > 0; stickyOff[c] = o; stickyLen[c] = l; refCD[c] = -1; }
+            sline(c, 3, l > 0, 0, r);
         } else if (!strcmp(cmd, "W")) {
             /* ndiff = capacities whose output differs from the large-capacity output; nraw = those among them whose FIRST differing
              * block is a raw block of the same regenerated size where the reference has a compressed block (the signature of the
              * dstSize_tooSmall -> "not compressible" fallback of ZSTD_entropyCompressSeqStore) */
-            int c; size_t o, l, span, r0, k, nerr = 0, ndiff = 0, nraw = 0, fcap = 0, fsize = 0; BYTE* ref;
-            if (fscanf(in, "%d %zu %zu %zu", &c, &o, &l, &span) != 4) return 2;
+            int c; size_t o, l, span, r0, k, nerr = 0, ndiff = 0, nraw = 0, fcap = 0, fsize = 0; BYTE* ref; char cls[300]; size_t hsz;
+            if (fscanf(in, "%d %zu %zu %zu", &c, &o, &l, &span) != 4 || span > 290) return 2;
             need_arena(l + span + 4096); memcpy(srcArena, blob + o, l); curDictKind = 0; prefSet[c] = 0;
             r0 = ZSTD_compress2(C[c], dstArena, ZSTD_compressBound(l) + 4096, srcArena, l);
-            if (ZSTD_isError(r0)) { perr("W", r0); printf("W %zu %zu 0 1 0 0 0 0\n", o, l); continue; }
-            ref = (BYTE*)malloc(r0 + 1); memcpy(ref, dstArena, r0);
+            if (ZSTD_isError(r0)) { perr("W", r0); printf("W %zu %zu 0 1 0 0 0 0 0 0 -\n", o, l); continue; }
+            ref = (BYTE*)malloc(r0 + 1); memcpy(ref, dstArena, r0); hsz = ZSTD_frameHeaderSize(ref, r0); cls[0] = 0;
             for (k = 0; k <= span; k++) {
                 size_t const r = ZSTD_compress2(C[c], dstArena, r0 + k, srcArena, l);
-                if (ZSTD_isError(r)) { nerr++; continue; }
+                cls[k] = '='; cls[k + 1] = 0;
+                if (ZSTD_isError(r)) { nerr++; cls[k] = 'E'; continue; }
                 if (r != r0 || memcmp(ref, dstArena, r0)) {
                     size_t const h = ZSTD_frameHeaderSize(ref, r0); size_t pa = h, pb = h; int isRaw = 0;
                     if (!ZSTD_isError(h) && r > h && memcmp(ref, dstArena, h) == 0) {
@@ -478,12 +509,12 @@ int main(void) {
                         }
                     }
                     if (!ndiff) { fcap = r0 + k; fsize = r; }
-                    ndiff++; nraw += (size_t)isRaw;
+                    ndiff++; nraw += (size_t)isRaw; cls[k] = isRaw ? 'R' : 'X';
                 }
                 if (!decode_ok(dstArena, r, srcArena, l)) { ndiff += 1000000; }
             }
             free(ref);
-            printf("W %zu %zu %zu %zu %zu %zu %zu %zu\n", o, l, r0, nerr, ndiff, fcap, fsize, nraw);
+            printf("W %zu %zu %zu %zu %zu %zu %zu %zu %zu %d %s\n", o, l, r0, nerr, ndiff, fcap, fsize, nraw, hsz, (int)C[c]->appliedParams.cParams.strategy, cls);
         } else if (!strcmp(cmd, "F")) {
             int c, fid, hex; size_t off, len, sa, da, r = 0; char api[32]; BYTE *src, *dst; size_t dstCap;
             if (fscanf(in, "%d %d %zu %zu %zu %zu %d %31s", &c, &fid, &off, &len, &sa, &da, &hex, api) != 8) return 2;
@@ -561,6 +592,8 @@ int main(void) {
                 if (w != c) dump(w, "frame");
             } else { fprintf(stderr, "unknown api %s\n", api); return 2; }
             report(fid, r, dst, src, len, hex);
+            {   int const sticky2 = !strcmp(api, "c2"), stickyS = !strcmp(api, "stream");
+                sline(c, (sticky2 || stickyS) ? (ZSTD_isError(r) ? 20 : (sticky2 ? 11 : 10)) : 12, 0, 0, 0); }
             dump(c, "frame");
         } else { fprintf(stderr, "unknown command %s\n", cmd); return 2; }
     }
